@@ -404,6 +404,7 @@ def run(ctx):
     _next_index_after_renumbering(ctx)
     _stale_loop_counters(ctx)
     _no_update_of_index_zero(ctx)
+    _no_update_of_a_copy(ctx)
 
 def _registered_hash(ctx):
     """R11.5: names are made unique through the _wrappers_by_hash registry; the
@@ -953,3 +954,77 @@ def _no_update_of_index_zero(ctx):
             ctx.ob("R11.10", "%s|%s(%s)|not-zero" % (f.name, callee_short(c), v.get("n")), ok, f.loc(c),
                    "%s; `%s` is %sbehind `%s != 0`" % (can_be_zero, show(c)[:50], "" if ok else "NOT ", v.get("n")))
     ctx.floor("R11.10", "update_*() calls with an index the function compares with 0", n, 2)
+
+
+def _root_of(n):
+    n = strip_casts(peel(n)) if n is not None else None
+    while n is not None and n.get("k") in ("mem", "idx"):
+        n = strip_casts(peel(n.get("b")))
+    return n
+
+
+def _copy_mutations(lp):
+    """Mutations of the (by-value) loop variable of a range-for that nothing reads afterwards: non-const member calls on
+    it or on a member of it, and assignments to its members."""
+    vt = (lp.get("vt") or "").strip()
+    if vt.endswith("&") or vt.endswith("*"):
+        return []
+    vd = lp.get("vd")
+    body = list(walk(lp.get("body") or {}))
+    muts = []
+    for y in body:
+        if y.get("k") == "call" and "this" in y and y.get("m") and not (y.get("s") or "").rstrip().endswith("const"):
+            r = _root_of(y["this"])
+            if r is not None and r.get("k") == "ref" and r.get("d") == vd:
+                muts.append(y)
+        t = assigned_target(y)
+        if t:
+            tgt = strip_casts(peel(t[0]))
+            r = _root_of(tgt)
+            if r is not None and r.get("k") == "ref" and r.get("d") == vd and tgt.get("k") != "ref":
+                muts.append(y)
+    if not muts:
+        return []
+    # a later read of the variable (by tree order) makes the copy a working value, not a lost update
+    last = max(m.get("i", 0) for m in muts)
+    inside = set()
+    for m in muts:
+        inside.update(z.get("i") for z in walk(m))
+    for y in body:
+        if y.get("k") == "ref" and y.get("d") == vd and y.get("i", 0) > last and y.get("i") not in inside:
+            return []
+    return muts
+
+
+def _no_update_of_a_copy(ctx):
+    """R11.11: `for (auto entry : _make_seq_map) entry.second.remap_indices(remap);` renumbers copies: the stored records
+    keep their old indices and nothing warns.  In the database library and the generators, a range-for whose loop
+    variable is a copy must not be the receiver of a non-const member call / the target of a member assignment unless
+    the variable is read afterwards.  (Seed S8-C11.)"""
+    db = ctx.db
+    ctx.rule("R11.11", "a range-for over a container binds by reference when its body changes the element (non-const member call on it, or assignment to a member of it, with no later read of the variable)")
+    # the detector must see the shape it is looking for (a zero count passes vacuously otherwise)
+    probe = {"k": "forrange", "vd": 7, "vt": "std::pair<const int, R>", "body": {"i": 1, "k": "block", "s": [
+        {"i": 2, "k": "call", "f": "R::remap_indices", "s": "void (const IndexRemapper &)", "m": 1,
+         "this": {"i": 3, "k": "mem", "n": "std::pair::second", "b": {"i": 4, "k": "ref", "d": 7, "dk": "local"}}, "a": []}]}}
+    probe_ref = dict(probe, vt="std::pair<const int, R> &")
+    if len(_copy_mutations(probe)) != 1 or _copy_mutations(probe_ref):
+        ctx.broken("R11.11: the detector no longer recognises its own example")
+    n = n_val = 0
+    for f in db.functions:
+        if not any(d in f.file for d in ("/interrogatedb/", "/interrogate/", "/cppparser/")):
+            continue
+        for lp in f.walk():
+            if lp.get("k") != "forrange":
+                continue
+            n += 1
+            vt = (lp.get("vt") or "").strip()
+            if vt.endswith("&") or vt.endswith("*"):
+                continue
+            n_val += 1
+            muts = _copy_mutations(lp)
+            what = ", ".join(sorted({(m.get("f") or "assignment").split("::")[-1] for m in muts}))
+            ctx.ob("R11.11", "%s|for(%s)|no-update-of-a-copy" % (f.name, lp.get("var")), not muts, f.loc(lp),
+                   "loop variable `%s` (%s) is a copy; %s" % (lp.get("var"), vt, ("%s on it is lost" % what) if muts else "the body does not change it"))
+    ctx.floor("R11.11", "range-for loops examined", n, 60)
+    ctx.floor("R11.11", "range-for loops binding by value", n_val, 5)
